@@ -14,15 +14,20 @@ ZeroFeed == [slot |-> 0, pub |-> 0, ts |-> 0, price |-> 0, min |-> 0, max |-> 0]
 
 R(res, err, st) == [res |-> res, err |-> err, st |-> st]
 
-Update(f, u) ==
-  IF u.slot < f.slot THEN R("err", "PreconditionsAreNotMet", f)
-  ELSE IF u.now < f.pub THEN R("err", "PreconditionsAreNotMet", f)
-  ELSE IF u.idem /\ u.ts < f.ts THEN R("skip", "", f)
-  ELSE IF u.ts < f.ts THEN R("err", "InvalidArgument", f)
-  ELSE IF u.now + u.excess < u.ts THEN R("err", "InvalidArgument", f)
-  ELSE IF u.max < u.min THEN R("err", "InvalidArgument", f)
-  ELSE IF u.max < u.price THEN R("err", "InvalidArgument", f)
-  ELSE IF u.price < u.min THEN R("err", "InvalidArgument", f)
+(* The update, generic in how numbers are compared: Lt(a, b) is a < b, Exceeds(ts, now, excess) is
+   ts > now + excess with the code's saturating addition.  The small tier instantiates them with
+   integer arithmetic, the type-limit tier (FeedBigProps) with limb arithmetic on the real values. *)
+UpdateG(f, u, Lt(_, _), Exceeds(_, _, _)) ==
+  IF Lt(u.slot, f.slot) THEN R("err", "PreconditionsAreNotMet", f)
+  ELSE IF Lt(u.now, f.pub) THEN R("err", "PreconditionsAreNotMet", f)
+  ELSE IF u.idem /\ Lt(u.ts, f.ts) THEN R("skip", "", f)
+  ELSE IF Lt(u.ts, f.ts) THEN R("err", "InvalidArgument", f)
+  ELSE IF Exceeds(u.ts, u.now, u.excess) THEN R("err", "InvalidArgument", f)
+  ELSE IF Lt(u.max, u.min) THEN R("err", "InvalidArgument", f)
+  ELSE IF Lt(u.max, u.price) THEN R("err", "InvalidArgument", f)
+  ELSE IF Lt(u.price, u.min) THEN R("err", "InvalidArgument", f)
   ELSE R("ok", "", [slot |-> u.slot, pub |-> u.now, ts |-> u.ts,
                     price |-> u.price, min |-> u.min, max |-> u.max])
+
+Update(f, u) == UpdateG(f, u, LAMBDA a, b : a < b, LAMBDA ts, now, ex : now + ex < ts)
 =============================================================================
